@@ -509,6 +509,11 @@ func (f *frame) evalSlice(in *ssa.Slice) bool {
 			f.set(in, Val{T: sx("mkslice", xv.T, lo, sx("-", hi, lo), sx("-", n, lo))})
 			return true
 		}
+		if xv.A.Kind == aField && xv.A.Idx == "" && len(x.loops) == 0 && f.st != nil {
+			base := x.sliceArrayField(f.st, xv.A, c, srt)
+			f.set(in, Val{T: sx("mkslice", base, lo, sx("-", hi, lo), sx("-", n, lo))})
+			return true
+		}
 		x.abstract("slice of array field (length/capacity exact, contents and aliasing with the field not modelled)")
 		hv := x.havocValue(f.st, in.Type(), "slice")
 		x.assume(f.st, and(eq(sx("sllen", hv), sx("-", hi, lo)), eq(sx("scap", hv), sx("-", n, lo)), not(eq(sx("sbase", hv), "0"))))
